@@ -118,7 +118,7 @@ def run_ble_link(ctx, ch, char_uuid_name: str, gens, handle, wire_hook=None, fsi
     return out["res"], delivered
 
 
-def run_coap(ctx, ch, what: str, handle, wire_hook=None, pairing_data=None, pin=None, with_auth=False):
+def run_coap(ctx, ch, what: str, handle, wire_hook=None, pairing_data=None, pin=None, with_auth=False, error_code: str | None = None):
     """Run pair-setup ('setup') or pair-verify ('verify') through the real CoAP transport code
     (CoAPHomeKitConnection.do_pair_setup / do_pair_setup_finish / do_pair_verify) over the simulated aiocoap context.
     Returns (result, delivered_reply_bytes)."""
@@ -139,6 +139,14 @@ def run_coap(ctx, ch, what: str, handle, wire_hook=None, pairing_data=None, pin=
             rb = wire_hook(step[0], rb)
         step[0] += 1
         delivered.append(rb)
+        if error_code is not None:
+            # a reply that reports a failure (an Error item) travels under that CoAP error code instead of 2.04
+            try:
+                items = tlv8.decode(rb, strict=False)
+            except Exception:  # noqa: BLE001
+                items = []
+            if any(t == 7 for t, _ in items):
+                return (error_code, rb)
         return rb
 
     acc.post_pair_setup = endpoint
